@@ -1,5 +1,6 @@
 import HecsModel.Model.WorldJudge
 import HecsModel.Model.BitsJudge
+import HecsModel.Model.BorrowJudge
 /-
   `hecs_judge`: reads a trace on stdin, one request per line, answers one line per request.
 
@@ -19,6 +20,7 @@ structure JState where
   diverged : Bool := false
   /-- the specification oracle stopped (its state is unknown after a rejected step) -/
   specDead : Bool := false
+  borrow : BorrowJudge.St := {}
 
 def splitArrow (line : String) : String × Option String :=
   match line.splitOn " => " with
@@ -69,6 +71,9 @@ def stepLine (st : JState) (line : String) : JState × String :=
         match rhs with
         | none => (st, "MODEL " ++ model)
         | some r => if r.trimAscii.toString == model then (st, "ok") else (st, "SPEC model=" ++ model)
+    | "sched-borrow" =>
+      let (b, ans) := BorrowJudge.stepLine st.borrow lhs rhs
+      ({ st with borrow := b }, ans)
     | e => (st, "ERR unknown engine " ++ e)
 
 partial def loop (h : IO.FS.Stream) (out : IO.FS.Stream) (st : JState) : IO Unit := do
